@@ -561,6 +561,13 @@ func (w *worker) runInstance(in *instance, cells []cell) {
 			return
 		case "noreply":
 			ctx.Count("closed_without_reply:"+cl.String(), 1)
+			if cword == "QUIT" {
+				// QUIT is a command like any other: it is answered (in the form of the connection)
+				// before the connection is closed
+				rp := replayBase()
+				rp["cell"] = cl.String()
+				ck.report("noreply:QUIT", fmt.Sprintf("%q (state %s, %s): the connection is closed without any reply; every command is due one well-formed reply", abbreviate(in.args), in.state, cl), rp)
+			}
 			continue
 		case "ioerr":
 			ctx.Count("io_errors", 1)
@@ -746,7 +753,7 @@ func Run(ctx *core.Ctx) {
 		"agreement relation: numbers as float64; strings after mapping invalid UTF-8 bytes to U+FFFD (JSON cannot carry them); RESP error text = JSON err after dropping the 'ERR ' prefix and the Redis spelling of 'invalid number of arguments'; where JSON carries less than RESP (DEL/PDEL/DROP/RENAMENX/SETHOOK counts, FSET change count, PERSIST 0/1) only success is compared; absence: GET/JGET/BOUNDS nil, TYPE none, TTL -2, EXPIRE/PERSIST/JDEL 0, SET nil (NX/XX) <=> JSON ok:false with key/id/path not found or id already exists",
 		"script results follow the Redis conversion on the RESP side (numbers truncated, true=1, false=nil); tables with string keys are not compared",
 		"TTL values may differ by the time between two requests (tolerance 2 s); hook ttl members are ignored; SERVER/INFO compared on key sets, ROLE on the role, CLIENT LIST and AOFMD5 on well-formedness only",
-		"QUIT in JSON mode and live commands over plain HTTP close the connection without a reply: counted, not judged",
+		"live commands over plain HTTP close the connection without a reply: counted, not judged",
 		"commands that switch global gates (CONFIG SET, READONLY, FOLLOW, AUTH, FLUSHDB, CLIENT) run on a process that is restarted after each cell",
 		"MASSINSERT and SLEEP only in their valid, shortened and lengthened shapes on a --dev server; SHUTDOWN only on a non-dev server",
 	}
